@@ -13,10 +13,13 @@
    TimeTicks,TimeNice}.v; doubles are exact rationals.
 
    WHAT THE COQ MODEL DOES NOT CARRY (covered by the tie of harness/props/c11.py only):
-     - the layout engine's recursion depth: CPython frames, four per solver-block
-       level against the default limit of 1000; conflict clusters above 200 items
-       are the OPEN KNOWN FINDING the property itself records
-       (corpus/C11/recursion_260.json); DESIGN.md's C11_depth_partial is not stated;
+     - the interpreter's frame accounting: CPython spends four frames per level of
+       the solver's recursive traversals against the default limit of 1000 (measured
+       by the tie); conflict clusters above 200 items are the OPEN KNOWN FINDING the
+       property itself records (corpus/C11/recursion_260.json).  The LOGICAL half is
+       proved below (the C11_depth theorems): in every solver state the recursion depth of each
+       traversal is at most the size of the BLOCK it starts in, whatever the number
+       of labels, layers and blocks; a layer of k items gives at most k + 2 variables;
      - the dict-key handling of omitted / empty / partial options (options=None,
        the `latex` sub-dict, missing keys);
      - the emitters' string formatting (SVG / TikZ text, uni2tex: properties C07,
@@ -116,3 +119,76 @@ Example C11_ex_raise :
   axis (mk_axis_in STime [TDateTime (mkdt 1 1 2 0 0 0 0); TDateTime (mkdt 9999 12 30 0 0 0 0)] None
                    (ex_opts Up true) (2020, 1, 1)%Z) = ARaise EDateRange.
 Proof. vm_compute. repeat split. Qed.
+
+(* ---------- recursion depth of the layout engine's solver (the recursion-limit clause) ----
+   Fuel = recursion depth: every recursive call of Block.compute_lm / populateSplitBlock /
+   findPath / isActiveDirectedPathBetween (vpsc.py) is one `S f` of the model's traversals.
+   Inv is the invariant of every state solve() goes through (C05_invariants_at_exit and the
+   preservation theorems of Props/C05.v).  blk_size st v = number of variables of v's block. *)
+From Labella Require Import Vpsc.Vpsc Vpsc.InvProofs Vpsc.Tree Vpsc.General Vpsc.FuelProofs Vpsc.DepthProofs
+  Vpsc.ChainPava.
+From Labella Require Layout.Layer.
+Close Scope Q_scope.
+
+(* the active constraints reachable from v are explored within |block of v| levels, and they
+   span exactly that block *)
+Theorem C11_depth_le_block : forall vars cons pend st v,
+  Inv vars cons pend st -> (v < length vars)%nat ->
+  exists E, reach cons (blk_size st v) st v None = Ok E /\ NoDup (v :: verts E) /\
+            Permutation.Permutation (v :: verts E) (bvars st (o_blk (vst_ st v))).
+Proof. exact reach_depth_le_block. Qed.
+Print Assumptions C11_depth_le_block.
+
+(* Block.compute_lm with any visitor that only writes multipliers (findMinLM, Blocks.split,
+   findMinLMBetween) *)
+Theorem C11_depth_compute_lm : forall vars cons (M : Type) (post : nat -> state -> M -> state * M),
+  (forall c s mm, lm_eq s (fst (post c s mm))) ->
+  forall pend st v mm, Inv vars cons pend st -> (v < length vars)%nat ->
+  exists r, compute_lm vars cons post (blk_size st v) v None (st, mm) = Ok r.
+Proof. intros vars cons M post H. exact (compute_lm_depth_le_block vars cons post H). Qed.
+Print Assumptions C11_depth_compute_lm.
+
+Theorem C11_depth_find_path : forall vars cons pend st v to mm,
+  Inv vars cons pend st -> (v < length vars)%nat ->
+  exists r, find_path cons (blk_size st v) v None to (st, mm) = Ok r.
+Proof. exact find_path_depth_le_block. Qed.
+Print Assumptions C11_depth_find_path.
+
+Theorem C11_depth_directed_path : forall vars cons pend st v to,
+  Inv vars cons pend st -> (v < length vars)%nat ->
+  exists b, is_adp cons (blk_size st v) st v to = Ok b.
+Proof. exact is_adp_depth_le_block. Qed.
+Print Assumptions C11_depth_directed_path.
+
+(* Block.split: both halves are populated within the size of the block being split (their own
+   sizes add up to it) *)
+Theorem C11_depth_populate : forall vars cons pend st c,
+  Inv vars cons pend st -> idx_ok vars cons -> (c < length cons)%nat -> k_act (cst_ st c) = true ->
+  let u := c_l (con_ cons c) in let w := c_r (con_ cons c) in
+  let st0 := set_active st c false in
+  exists E1 E2,
+    reach cons (S (length E1)) st0 u None = Ok E1 /\
+    reach cons (S (length E2)) st0 w None = Ok E2 /\
+    (S (length E1) + S (length E2) = blk_size st u)%nat /\
+    (forall bid s, act_eq s st0 -> exists s', populate vars cons (blk_size st u) bid u None s = Ok s') /\
+    (forall bid s, act_eq s st0 -> exists s', populate vars cons (blk_size st u) bid w None s = Ok s').
+Proof. exact populate_depth_le_block. Qed.
+Print Assumptions C11_depth_populate.
+
+(* a block holds at most all variables; the solver instance of a layer of k items has at most
+   k + 2 variables (the items and the walls that exist: removeOverlap.py:47-73) *)
+Theorem C11_depth_le_vars : forall vars cons pend st v,
+  Inv vars cons pend st -> (v < length vars)%nat -> (blk_size st v <= length vars)%nat.
+Proof. exact blk_size_le_n. Qed.
+Print Assumptions C11_depth_le_vars.
+
+Theorem C11_layer_vars : forall o s,
+  (length (chain_vars (Layer.chain_d o s) (Layer.chain_w o s)) <= length s + 2)%nat.
+Proof.
+  intros o s. rewrite chain_vars_length.
+  - unfold Layer.chain_d. rewrite !app_length, map_length.
+    destruct (Layer.minP o), (Layer.maxP o); simpl; Lia.lia.
+  - unfold Layer.chain_d, Layer.chain_w. rewrite !app_length, !map_length.
+    destruct (Layer.minP o), (Layer.maxP o); reflexivity.
+Qed.
+Print Assumptions C11_layer_vars.
